@@ -210,6 +210,7 @@ class DewPoint:
     
     def __call__(self, z, *, T=None, P=None, gas_conversion=None):
         z = np.asarray(z, float)
+        z = z / z.sum()
         if T:
             if P: raise ValueError("may specify either T or P, not both")
             P, *args = self.solve_Px(z, T, gas_conversion)
